@@ -4,6 +4,7 @@ mod keyupdate;
 mod ranges;
 mod reasm;
 mod spsc;
+mod cursor;
 mod tparams;
 mod util;
 
@@ -17,6 +18,7 @@ fn main() {
         "packets-record" => frames::record_packets(rest),
         "spsc-record" => spsc::record(rest),
         "worker-record" => spsc::worker_record(rest),
+        "cursor-record" => cursor::record(rest),
         "cc-run" => cc::run(rest),
         "reasm-replay" => reasm::replay(rest),
         "reasm-record" => reasm::record(rest),
